@@ -158,6 +158,29 @@ def build_impl(s):
             a = DimArray(vals, axes=_axes(s))
             for ax in a.axes:
                 ax.is_monotonic()
+        elif var == "relabel":
+            # an array that was USED under other labels (a rotation of the final ones: another sort permutation, another monotonic verdict) -
+            # sorted, re-indexed, aligned and added to a partner, so that whatever the library caches on the Axis objects is filled -
+            # and then relabelled IN PLACE through the public API (a.<dim> = labels on even dimensions, axis[i] = label on odd ones)
+            old = [list(l[1:]) + list(l[:1]) for l in s["labels"]]
+            a = DimArray(vals, axes=_axes(s, old))
+            for i, ax in enumerate(a.axes):
+                try:
+                    ax.is_monotonic()
+                    a.sort_axis(axis=i)
+                    a.reindex_axis(np_labels(sorted(old[i])[::-1], s["kinds"][i]), axis=i)
+                    b = a.take_axis([ax.size - 1], axis=i, indexing="position")
+                    a + b
+                    da.align([b, a])
+                    a[old[i][0]:]
+                except Exception:
+                    pass
+            for i, (d, l, k) in enumerate(zip(s["dims"], s["labels"], s["kinds"])):
+                if i % 2 == 0:
+                    setattr(a, d, np_labels(l, k))
+                else:
+                    for j, v in enumerate(np_labels(l, k)):
+                        a.axes[i][j] = v
         else:
             raise ValueError(var)
         for k, v in (s.get("attrs") or {}).items():
@@ -169,7 +192,7 @@ def build_impl(s):
         common.reset_options()
 
 
-VARIANTS = ["fresh", "T", "slice", "take", "ds", "mono"]
+VARIANTS = ["fresh", "T", "slice", "take", "ds", "mono", "relabel"]
 
 
 def compare(impl, ref, rtol=0.0, attrs=False, dtype_kind=None, axattrs=False, what="result"):
